@@ -4,6 +4,6 @@ go 1.22
 
 require github.com/Tnze/go-mc v0.0.0
 
-require github.com/google/uuid v1.3.0 // indirect
+require github.com/google/uuid v1.3.0
 
 replace github.com/Tnze/go-mc => /repo
